@@ -34,7 +34,7 @@ def build(repo, findings):
             || (st is At && st->k == self_.0@.len() && r.next_control_flow is Normal && r.exit_code == st->code
                 && (st->synced ==> final(shell).status() == u8_of(r.exit_code))),
         // the only error that is not a child's: announcing a job that was just spawned
-        Err(_) => st is Err || (st is At && st->k > 0 && self_.0@[st->k - 1].1 is Async && !st->synced),
+        Err(_) => st is Err || (st is At && st->k > 0 && self_.0@[st->k - 1].1 is Async),
     }
 })''' % (RUN % 'final(shell)')),
     ])
